@@ -51,6 +51,16 @@ checks += [
     chk("C16", "routerlab", "model_checking", rtext("close of the registration channel at every point of the pub/sub and req/rep families (idle, item buffered, flush pending, one side only, rejected replier pending) followed by every pending/wake outcome of the sinks") + "; oracle: the router future completes once every sink can accept data, and every frame taken from a publisher was handed over and flushed to every healthy subscriber first", R_NOTE + "; router half only: Server::shutdown (close_channel + join) is not yet driven by a check", R_TECH, "DESIGN.md §3 C16"),
 ]
 
+E_NOTE = "scheduling inside tokio/quinn/the kernel is NOT controlled: what is enumerated exhaustively is the property's quantified dimension (configurations, reply orders, fault points and sequences); expected arrivals are awaited with generous ceilings (10-20 s), expected absences are short quiet windows (can only under-report); trusted base: quinn, rustls, loopback UDP"
+E_TECH = "exhaustive enumeration of a finite configuration / fault-sequence matrix over the real server and client (bounded model checking of the quantified dimension; interleavings not controlled)"
+checks += [
+    chk("C03", "e2elab", "exploration", "every cell of codec x compression x batching (size, interval) x message count around the batch size x payload size is run end-to-end: real Subscriber attached via a warm-up barrier, real Publisher sends n items and finish(); the subscriber must yield exactly those items, in order, once", E_NOTE, E_TECH, "DESIGN.md §5 C03"),
+    chk("C04", "e2elab", "exploration", "k concurrent request() calls over every set partition into requestor streams/clones, a raw scripted replier that first collects all k requests and then answers in every permutation leaving every subset unanswered, with late replies injected while a fresh request (same or re-opened stream) is in flight; every Ok must carry its own reply, every unanswered call must time out in [480 ms, 10.5 s]", E_NOTE, E_TECH, "DESIGN.md §5 C04"),
+    chk("C12", "e2elab", "fault_enumeration", "a scripted fake server cuts its connections after k items and answers re-registrations with f failures per outage, for every stream kind x k x number of successive outages x f x backoff x max attempts; per outage the re-registration frame must equal the original, the attempt count must be f+1 (max when all fail, 1 when unrecoverable) regardless of earlier outages, the stream must work again when f<max, and too-many-retries / the unrecoverable error must be reported instead of hanging", E_NOTE, "exhaustive fault-sequence enumeration against the real client through a scripted fake server", "DESIGN.md §5 C12"),
+    chk("C15", "e2elab", "exploration", "all 4 server configurations (CA used to verify clients x CA of the presented certificate) x client trust store x client identity {trusted-CA, other-CA, self-signed, none} x {real client library, raw peer}, sequentially in a forward and a backward order within one process, with the bundled generator's certificate set as the trusted world; a registration must be answered Ok iff both certificates chain to the CA the other side was configured with", E_NOTE + "; cryptographic strength is out of scope", "exhaustive enumeration of the finite identity/configuration matrix", "DESIGN.md §5 C15"),
+    chk("C17", "e2elab", "fault_enumeration", "per cell a fresh real server whose topic A is stalled by a never-reading subscriber and a flooding publisher, N further registrations on A for N around the router's queue capacity (99,100,101,102,150,...) in both orders relative to the stall, then a fresh real client must round-trip a message on topic B within 20 s", E_NOTE, "exhaustive enumeration of the fault parameter (queued registrations x order) over the real server", "DESIGN.md §5 C17"),
+]
+
 pending = {
     "C01": "check under construction (engine R, routerlab)",
     "C02": "check under construction (engine R, routerlab)",
